@@ -3,7 +3,9 @@ package c24
 import (
 	"fmt"
 	"github.com/ipld/go-ipld-prime/node/basicnode"
+	"github.com/libp2p/go-libp2p/core/peer"
 	"testing"
+	"verif/harness/sim"
 
 	"github.com/ipfs/go-cid"
 	"pgregory.net/rapid"
@@ -28,6 +30,9 @@ type Case struct {
 	UserCids  []int     `json:"user_cids"`   // indices into the DAG's distinct blocks; empty = no do-not-send-cids
 	UserKey   bool      `json:"user_key"`    // the request also carries dedup-by-key (its own de-duplication scope on the responder)
 	HasCidExt bool      `json:"has_cid_ext"` // send the extension even when empty
+	// PauseAt > 0: the requestor's block hook pauses the request at its n-th block; it is resumed once everything
+	// is quiet, which makes the requestor send the request again under the same id with a new skip count
+	PauseAt int `json:"pause_at,omitempty"`
 }
 
 func gen(t *rapid.T) Case {
@@ -39,6 +44,9 @@ func gen(t *rapid.T) Case {
 			c.HasCidExt = true
 			c.UserCids = rapid.SliceOfNDistinct(rapid.IntRange(0, len(c.Base.DAG.Blocks)-1), 0, 4, rapid.ID[int]).Draw(t, "usercids")
 		}
+	}
+	if rapid.IntRange(0, 3).Draw(t, "haspause") == 0 {
+		c.PauseAt = rapid.IntRange(1, 6).Draw(t, "pauseat")
 	}
 	return c
 }
@@ -66,7 +74,33 @@ func judge(c Case) *pbt.Verdict {
 	if c.UserKey {
 		exts = append(exts, graphsync.ExtensionData{Name: graphsync.ExtensionDeDupByKey, Data: basicnode.NewString("own-scope")})
 	}
-	o := scen.Exchange(outerT, p, scen.ExOpts{Exts: exts})
+	opts := scen.ExOpts{Exts: exts}
+	resumed := false
+	if c.PauseAt > 0 {
+		nblk := 0
+		var paused []graphsync.RequestID
+		opts.Setup = func(w *sim.World, rq, rs *sim.Inst) {
+			rq.GS.RegisterIncomingBlockHook(func(_ peer.ID, rd graphsync.ResponseData, _ graphsync.BlockData, ha graphsync.IncomingBlockHookActions) {
+				nblk++
+				if nblk == c.PauseAt {
+					ha.PauseRequest()
+					paused = append(paused, rd.RequestID())
+				}
+			})
+		}
+		opts.Drive = func(w *sim.World, rq, rs *sim.Inst, res *sim.ReqResult) {
+			w.Quiesce()
+			for _, id := range paused {
+				resumed = true
+				_ = rq.GS.Unpause(w.Ctx, id)
+				w.Quiesce()
+			}
+		}
+	}
+	o := scen.Exchange(outerT, p, opts)
+	if resumed {
+		v.Label("paused-and-resumed")
+	}
 	labels, partial := p.Shape()
 	v.Labels = labels
 	K := p.Ref.LocalPrefix
@@ -89,7 +123,21 @@ func judge(c Case) *pbt.Verdict {
 
 	// (a) everything local => nothing is sent at all
 	if !p.NeedsRemote() {
-		if len(o.Sent) != 0 {
+		if resumed {
+			// outside the property's quantifier (it ranges over inputs, not over pauses): pausing makes the
+			// executor send a cancel even for a request it never sent; what must still hold is that the
+			// request itself never goes to the network
+			for _, e := range o.Sent {
+				for _, r := range e.Msg.Requests() {
+					if r.Type() != graphsync.RequestTypeCancel {
+						return v.Failf("requestor holds every block the traversal needs, yet a %v request was sent after pause and resume", r.Type())
+					}
+				}
+				if e.From != scen.ReqID {
+					return v.Failf("requestor holds every block the traversal needs, yet the responder sent a message")
+				}
+			}
+		} else if len(o.Sent) != 0 {
 			return v.Failf("requestor holds every block the traversal needs but %d message(s) were sent; first: %s", len(o.Sent), describe(o.Sent[0].From.String(), o))
 		}
 		if !o.RespClosed || !o.ErrClosed {
@@ -97,19 +145,22 @@ func judge(c Case) *pbt.Verdict {
 		}
 		return v
 	}
-	// (b) exactly one New request, carrying the right skip count
-	var news int
-	var gotSkip int64 = -1
+	// (b) one New request per run (one run, or two when the request was paused and resumed), the first carrying
+	// the right skip count, a later one never a smaller one
+	type runT struct {
+		skip   int64
+		sentAt int // position in o.Sent
+	}
+	var runs []runT
 	reqID := graphsync.RequestID{}
-	for _, e := range o.Sent {
+	for k, e := range o.Sent {
 		if e.From != scen.ReqID {
 			continue
 		}
 		for _, r := range e.Msg.Requests() {
 			if r.Type() == graphsync.RequestTypeNew {
-				news++
 				reqID = r.ID()
-				gotSkip = 0
+				var gotSkip int64
 				if d, has := r.Extension(graphsync.ExtensionsDoNotSendFirstBlocks); has {
 					n, err := donotsendfirstblocks.DecodeDoNotSendFirstBlocks(d)
 					if err != nil {
@@ -117,55 +168,73 @@ func judge(c Case) *pbt.Verdict {
 					}
 					gotSkip = n
 				}
+				runs = append(runs, runT{gotSkip, k})
 			}
 		}
 	}
-	if news != 1 {
-		return v.Failf("%d New requests sent for one execution, want exactly 1", news)
+	maxRuns := 1
+	if resumed {
+		maxRuns = 2
 	}
-	if gotSkip != int64(wantSkip) {
-		return v.Failf("New request asks to skip %d blocks; requestor loaded %d locally before its first miss (user-supplied %d) => want %d", gotSkip, K, c.UserSkip, wantSkip)
+	if len(runs) < 1 || len(runs) > maxRuns {
+		return v.Failf("%d New requests sent for one execution (paused and resumed: %v), want 1..%d", len(runs), resumed, maxRuns)
 	}
-	// (c) responder never transmits a skipped / excluded / already transmitted block
-	idx := 0 // responder traversal index (counts every link traversal)
-	sentOnce := map[cid.Cid]bool{}
-	for _, e := range o.Sent {
-		if e.From != scen.RespID {
-			continue
+	if runs[0].skip != int64(wantSkip) {
+		return v.Failf("New request asks to skip %d blocks; requestor loaded %d locally before its first miss (user-supplied %d) => want %d", runs[0].skip, K, c.UserSkip, wantSkip)
+	}
+	if len(runs) == 2 {
+		v.Label("request-sent-again-after-resume")
+		if runs[1].skip < runs[0].skip || runs[1].skip < int64(c.PauseAt) || runs[1].skip > int64(max(len(p.Ref.Loads), c.UserSkip)) {
+			return v.Failf("the request sent again after the resume asks to skip %d blocks; the first run asked for %d, the requestor had loaded at least %d blocks when it paused and the whole traversal has %d", runs[1].skip, runs[0].skip, c.PauseAt, len(p.Ref.Loads))
 		}
-		blocks := map[cid.Cid]bool{}
-		for _, b := range e.Msg.Blocks() {
-			blocks[b.Cid()] = true
+	}
+	// (c) the responder never transmits a skipped / excluded / already transmitted block, in any run
+	for ri, rn := range runs {
+		end := len(o.Sent)
+		if ri+1 < len(runs) {
+			end = runs[ri+1].sentAt
 		}
-		attributed := map[cid.Cid]bool{}
-		for _, r := range e.Msg.Responses() {
-			if r.RequestID() != reqID {
+		gotSkip := rn.skip
+		idx := 0 // responder traversal index (counts every link traversal)
+		sentOnce := map[cid.Cid]bool{}
+		for _, e := range o.Sent[rn.sentAt:end] {
+			if e.From != scen.RespID {
 				continue
 			}
-			var fail string
-			r.Metadata().Iterate(func(cc cid.Cid, a graphsync.LinkAction) {
-				idx++
-				if !blocks[cc] || attributed[cc] || a != graphsync.LinkActionPresent {
-					return
-				}
-				attributed[cc] = true
-				switch {
-				case idx <= int(gotSkip):
-					fail = fmt.Sprintf("block %s at traversal index %d transmitted although the first %d were to be skipped", cc, idx, gotSkip)
-				case userSet.Has(cc):
-					fail = fmt.Sprintf("block %s transmitted although listed in do-not-send-cids", cc)
-				case sentOnce[cc]:
-					fail = fmt.Sprintf("block %s transmitted twice within one request", cc)
-				}
-				sentOnce[cc] = true
-			})
-			if fail != "" {
-				return v.Failf("%s", fail)
+			blocks := map[cid.Cid]bool{}
+			for _, b := range e.Msg.Blocks() {
+				blocks[b.Cid()] = true
 			}
-		}
-		for cc := range blocks {
-			if !attributed[cc] {
-				return v.Failf("block %s transmitted without a Present metadata entry in its message", cc)
+			attributed := map[cid.Cid]bool{}
+			for _, r := range e.Msg.Responses() {
+				if r.RequestID() != reqID {
+					continue
+				}
+				var fail string
+				r.Metadata().Iterate(func(cc cid.Cid, a graphsync.LinkAction) {
+					idx++
+					if !blocks[cc] || attributed[cc] || a != graphsync.LinkActionPresent {
+						return
+					}
+					attributed[cc] = true
+					switch {
+					case idx <= int(gotSkip):
+						fail = fmt.Sprintf("run %d: block %s at traversal index %d transmitted although the first %d were to be skipped", ri, cc, idx, gotSkip)
+					case userSet.Has(cc):
+						fail = fmt.Sprintf("run %d: block %s transmitted although listed in do-not-send-cids", ri, cc)
+					case sentOnce[cc]:
+						fail = fmt.Sprintf("run %d: block %s transmitted twice within one run of the request", ri, cc)
+					}
+					sentOnce[cc] = true
+				})
+				if fail != "" {
+					return v.Failf("%s", fail)
+				}
+			}
+			for cc := range blocks {
+				if !attributed[cc] {
+					return v.Failf("block %s transmitted without a Present metadata entry in its message", cc)
+				}
 			}
 		}
 	}
